@@ -147,11 +147,13 @@ TEARDOWN = {
         "implies(not optional, G.ntd == old(G.ntd))",
         "closed(setup_layers)",
         "object not in setup_layers",
+        "len(errors) >= old(len(errors))",
     ],
     'raises': {
         'CanNotTearDown': ["not optional", "G.ntd", "closed(setup_layers)", "object not in setup_layers",
                            "forall(l, Layer, implies(l in setup_layers, old(l in setup_layers)))",
-                           "G.bad - old(G.bad) == len(errors) - old(len(errors))"],
+                           "G.bad - old(G.bad) == len(errors) - old(len(errors))",
+                           "len(errors) >= old(len(errors))"],
         'MemoryError': [],
         'OtherBase': [],
     },
@@ -172,12 +174,57 @@ TEARDOWN = {
             " exists(u, Int, 0 <= u and u < len(unneeded) and unneeded[u] == l)))",
             "G.bad - old(G.bad) == len(errors) - old(len(errors))",
             "implies(not optional, G.ntd == old(G.ntd))",
+            "len(errors) >= old(len(errors))",
         ],
     },
     'rules': {
         'TearDownLayerFailure': 'fresh:Any',
         'CanNotTearDown': None,
     },
+}
+
+
+BADSUM = "G.bad - old(G.bad) == (len(failures) - old(len(failures))) + (len(errors) - old(len(errors)))"
+
+# assumed here (trusted=True); its body is put under contract in runner_result.py
+RUN_TESTS_FN = {
+    'property': ['C02', 'C12', 'C16'],
+    'trusted': True,
+    'params': {'options': 'Rec[Options]', 'tests': 'Suite', 'name': 'Str', 'failures': 'List[Tuple[Any,Any]]',
+               'errors': 'List[Tuple[Any,Any]]', 'skipped': 'List[Tuple[Any,Any]]', 'import_errors': 'List[Any]'},
+    'returns': 'int',
+    'ghost': {'bad': 'int', 'ntd': 'bool'},
+    'requires': [],
+    'modifies': ['failures', 'errors', 'skipped', 'G.bad'],
+    'ensures': [BADSUM, "result >= 0", "len(failures) >= old(len(failures))", "len(errors) >= old(len(errors))"],
+    'raises': {'EndRun': [], 'OtherBase': [], 'MemoryError': []},
+}
+
+RUN_LAYER = {
+    'property': ['C01', 'C02', 'C04'],
+    'params': {'options': 'Rec[Options]', 'layer_name': 'Str', 'layer': 'Layer', 'tests': 'Suite',
+               'setup_layers': 'Dict[Layer,int]', 'failures': 'List[Tuple[Any,Any]]',
+               'errors': 'List[Tuple[Any,Any]]', 'skipped': 'List[Tuple[Any,Any]]', 'import_errors': 'List[Any]'},
+    'returns': 'int',
+    'ghost': {'bad': 'int', 'ntd': 'bool'},
+    'locals': {'gathered': 'List[Layer]'},
+    'requires': ["WF()", "closed(setup_layers)", "object not in setup_layers", "not G.ntd", "layer != object"],
+    'modifies': ['setup_layers', 'failures', 'errors', 'skipped', 'G.bad', 'G.ntd'],
+    'ensures': ["closed(setup_layers)", "object not in setup_layers", "not G.ntd", BADSUM, "result >= 0",
+                "len(failures) >= old(len(failures))", "len(errors) >= old(len(errors))"],
+    'raises': {
+        # containment (C04): for hooks raising Exception subclasses nothing but these leaves run_layer
+        'EndRun': ["closed(setup_layers)", "object not in setup_layers"],
+        'CanNotTearDown': ["G.ntd", "closed(setup_layers)", "object not in setup_layers", BADSUM,
+                           "len(failures) >= old(len(failures))", "len(errors) >= old(len(errors))"],
+        'MemoryError': [],
+        'OtherBase': [],
+    },
+    'callsites': {
+        # the only place a test of this layer executes: exactly the layer and its transitive bases are set up
+        'run_tests': ["forall(l, Layer, iff(l in setup_layers, isanc(l, layer)))", "not G.ntd"],
+    },
+    'rules': {'SetUpLayerFailure': 'fresh:Any'},
 }
 
 
@@ -229,3 +276,5 @@ def register(E):
     E.add_contract('runner.handle_layer_failure', HANDLE_FAILURE)
     E.add_contract('runner.setup_layer', SETUP)
     E.add_contract('runner.tear_down_unneeded', TEARDOWN)
+    E.add_contract('runner.run_tests', RUN_TESTS_FN)
+    E.add_contract('runner.run_layer', RUN_LAYER)
